@@ -68,7 +68,21 @@ def traces_check(run, binary, driver, module, env=None, tier=None, sub=None, arg
             continue
         seen.add(key)
 
-        def recheck(key=key):
+        def recheck(key=key, lines=lines):
+            if nd:
+                # schedule-dependent behaviour: the recorded trace is itself behaviour of the real code.
+                # It is validated again on its own (a deterministic verdict on the same evidence); the
+                # scenario is also re-executed a few times to tell whether the schedule recurs.
+                p1 = os.path.join(run.work, "recheck-%s-%d.ndjson" % (driver, len(seen)))
+                open(p1, "w").writelines(lines)
+                n1, ne1, rej1 = validate(run, module, [p1], cfg=cfg)
+                again = 0
+                for attempt in range(5):
+                    d2, m2 = run.drive(binary, driver, sub="rerun-%s-%d-%d" % (driver, len(seen), attempt), env=dict(e, VERIF_ONLY=key), tier=tier, args=args)
+                    if validate(run, module, m2["files"][fileskey], cfg=cfg)[2]:
+                        again += 1
+                return bool(rej1), dict(driver=driver, module=module, why=(rej1[0][3] if rej1 else ""), rejected_at_event=(rej1[0][1] if rej1 else 0),
+                                        reproduced_in_reruns="%d/5" % again, trace=[json.loads(l) for l in lines][:80])
             e2 = dict(e, VERIF_ONLY=key)
             d2, m2 = run.drive(binary, driver, sub="recheck-%s-%d" % (driver, len(seen)), env=e2, tier=tier, args=args)
             n2, ne2, rej2 = validate(run, module, m2["files"][fileskey], cfg=cfg)
@@ -147,6 +161,8 @@ def c18(run):
     run.assumptions += [WRITER_MODEL_NOTE + " (invariant ResetIsFresh: after Reset the struct equals a new one)",
                         "the fresh twin is built with NewWriterSize(Size()); when that constructor cannot give the same Size() the lock-step comparison is skipped and only the monitor judges the suffix"]
     traces_check(run, b, "c18w", "TraceWsWriter")
+    run.assumptions += [READER_NOTE, "reader reuse: the monitor is memoryless across messages, so a reader that reads the next message differently from a new one is rejected"]
+    traces_check(run, b, "c18r", "TraceWsReader")
     return run.finish("model_checking")
 
 
